@@ -154,10 +154,18 @@ def check(ctx):
             attrs = _fitted_state(cname, axis, S)
             if rec is not None:
                 attrs["recompute_every"] = rec
+            attrs["n_to_select"] = scalar("raw_request", 0, 1, True, False)  # the raw hyper-parameter may be a fraction / None
             o = ctx.bare_object(I, st, cls, attrs)
             pre = dict(st.heap[o.obj.id])
+            lo_w = len(I.events)
             ctx.call_method(I, st, o, "_continue_greedy_search", X, y if (axis == 0 or "PCov" in cname) else vconst(None), integer("S"))
             post = st.heap[o.obj.id]
+            raw = [e for e in I.events[lo_w:] if e["kind"] == "getattr" and e["attr"] == "n_to_select" and e.get("obj") is o.obj]
+            ctx.ob("R-PADPAIR", f"{cfg}{' recompute_every=' + str(rec) if rec is not None else ''}: the warm path sizes buffers from the resolved request, not the raw hyper-parameter", not raw, f"raw n_to_select read in {sorted({e['short'] for e in raw})}" if raw else "resolved argument only", ctx.site(P.method(cls, "_continue_greedy_search")), cfg)
+            if rec == 1:
+                xc = post["X_current_"]
+                loops = [t for t in tq.walk_all(xc.term) if t.op == "loop"]
+                ctx.ob("R-STATE", f"{cfg} recompute_every=1: warm start re-orthogonalises exactly the previously selected items", bool(loops) and all(t.args[1] == pre["selected_idx_"].term for t in loops), f"loop over {[repr(t.args[1])[:80] for t in loops]}", ctx.site(P.method(cls, "_continue_greedy_search")), cfg)
             allowed = {"X_selected_", "y_selected_", "selected_idx_", "dSL_"}
             if rec == 1:
                 allowed |= {"pi_", "X_current_", "y_current_"}
@@ -187,6 +195,15 @@ def check(ctx):
         st.heap[o.obj.id].update({k: (v if isinstance(v, V) else vconst(v)) for k, v in _fitted_state(cname, axis, S).items() if k not in ("recompute_every",)})
         ctx.call_method(I, st, o, "fit", X, y, warm_start=True)
         sel = st.heap[o.obj.id]["selected_idx_"]
+        # a warm start continues the same search: the relative-threshold reference is kept
+        Iw = ctx.interp(order=[("Q", "<", "S")], assume=_assume_warm, stubs={"GreedySelector._get_best_new_selection": lambda i_, c_, a_, k_, s_, n_: index("picked", S)})
+        sw = State()
+        ow = ctx.construct(Iw, sw, cls, **dict(ctor, score_threshold=scalar("thr"), score_threshold_type="relative"))
+        sw.heap[ow.obj.id].update({k: (v if isinstance(v, V) else vconst(v)) for k, v in _fitted_state(cname, axis, S).items() if k not in ("recompute_every",)})
+        sw.heap[ow.obj.id]["first_score_"] = scalar("first0")
+        ctx.call_method(Iw, sw, ow, "fit", X, y, warm_start=True)
+        fs = sw.heap[ow.obj.id].get("first_score_")
+        ctx.ob("R-STATE", f"{cfg}: a warm-started fit keeps the relative-threshold reference of the search it continues", fs is not None and tq.has_sym(fs.term, "first0") and fs.kind != "none", f"first_score_ after the warm fit: {fs!r}", fit_site, cfg)
         loops = [t for t in sel.term.walk() if t.op == "loop"]
         if ctx.ob("R-LOOPCOUNT", f"{cfg}: greedy loop found after warm start", len(loops) >= 1, f"{len(loops)} loop terms", fit_site, cfg):
             it = loops[0].args[1]
